@@ -37,6 +37,12 @@ just before the next doWrite) or is ONE list object the caller keeps refilling a
 bytes written are those in the list at the time of the call, whatever the caller does to its own
 list later.
 
+Rejected calls: write(non-bytes) and writeSequence with a str/None/int/bytearray/memoryview item in
+first, middle or last position (list, tuple or iterator argument) are interleaved everywhere, also
+between a big write and a half close/close.  They must contribute nothing: the valid chunks around
+the bad item are junk bytes that are not on the tape, so anything queued before the call failed is
+caught as foreign bytes (and at once by the conservation contract).
+
 Producer hooks are application code that re-enters the transport: resumeProducing writes,
 writeSequences, half-closes, closes, unregisters itself or hands over to a successor producer, and
 sometimes raises after its work (the failure disconnects the descriptor; the byte oracle still
@@ -71,7 +77,7 @@ FLOORS = {"doWrite_calls": 5000, "partial_accepts": 300, "zero_accepts": 100, "b
           "pause_checks": 100, "drain_resume_checks": 100, "halfclose_checks": 20, "closes_deferred_for_pull_producer": 10,
           "closes_with_data_written_before_loseconnection": 30, "histories_with_big_buffer": 20,
           "halfclose_close_scripts": 100, "closes_while_halfclose_pending": 30, "caller_list_mutations": 500,
-          "reentrant_hook_calls": 300, "producer_swaps_in_hook": 30, "hook_raises": 50, "boundary_accepts": 200}
+          "rejected_calls": 1000, "rejected_calls_raised_typeerror": 1000, "reentrant_hook_calls": 300, "producer_swaps_in_hook": 30, "hook_raises": 50, "boundary_accepts": 200}
 READY = True
 
 import os
@@ -455,6 +461,28 @@ def make_world(ctx, rng, case):
             total = 0
         after_write(total if live else 0, label)
 
+    def do_rejected(how):
+        """A call the transport must refuse (a non-bytes item): TypeError, and NOTHING of it may ever
+        reach the OS.  The valid chunks around the bad item are junk that is not on the tape, so a
+        chunk that was queued before the call failed shows up as foreign bytes."""
+        junk = lambda: b"\xa5" * rng.choice([1, 3, 64, 5000])
+        bad = rng.choice(["text", None, 7, bytearray(b"ba"), memoryview(b"mv")])
+        w.log.append(["rejected", how, type(bad).__name__])
+        ctx.count("rejected_calls")
+        try:
+            if how == "write":
+                fd.write(bad)
+            else:
+                n_before, n_after = {"first": (0, rng.randint(0, 2)), "middle": (rng.randint(1, 3), rng.randint(1, 3)), "last": (rng.randint(1, 3), 0)}[how]
+                items = [junk() for _ in range(n_before)] + [bad] + [junk() for _ in range(n_after)]
+                arg = rng.choice([list, tuple, iter])(items)
+                fd.writeSequence(arg)
+        except TypeError:
+            ctx.count("rejected_calls_raised_typeerror")
+        else:
+            ctx.count("rejected_calls_not_raising")  # not judged here: anything it queued is judged as foreign bytes
+        invariants("rejected " + how)
+
     def mutate_caller_list(lst, how):
         junk = b"\xa5" * rng.choice([1, 7, 300])
         if how == "clear":
@@ -572,7 +600,7 @@ def make_world(ctx, rng, case):
         invariants("doWrite")
         return True
 
-    w.ops = {"write": do_write, "writeSequence": do_write_sequence, "register": do_register, "unregister": do_unregister,
+    w.ops = {"rejected": do_rejected, "write": do_write, "writeSequence": do_write_sequence, "register": do_register, "unregister": do_unregister,
              "lose": do_lose, "loseWrite": do_lose_write, "doWrite": do_dowrite, "pick_size": pick_size}
     return w
 
@@ -600,10 +628,15 @@ def run_case(ctx, case):
                     ops["writeSequence"](step[1], rng.choice(["list", "reused-list"]))
                 elif step[0] == "doWrite":
                     ops["doWrite"](step[1])
+                elif step[0] == "rejected":
+                    ops["rejected"](step[1])
                 else:
                     ops[step[0]]()
                 continue
             r = rng.random()
+            if rng.random() < 0.03:
+                ops["rejected"](rng.choice(["write", "first", "middle", "middle", "last", "last"]))
+                continue
             if w.alive and not w.write_closed and w.lc_mark is None and r < 0.012:
                 # half close requested and full close with bytes still buffered, both orders, with
                 # partial acceptance and writes in between (needs several steps in a row)
@@ -612,7 +645,7 @@ def run_case(ctx, case):
                 part = lambda: ["doWrite", rng.choice(["zero", "one", "half", rng.randint(0, 3000), "allbut1"])]
                 maybe = lambda step: [step] if rng.random() < 0.5 else []
                 first, second = (["loseWrite"], ["lose"]) if rng.random() < 0.7 else (["lose"], ["loseWrite"])
-                script = [big] + maybe(part()) + [first] + maybe(["write", rng.randint(0, 5000)]) + maybe(part()) + [second] + maybe(["write", rng.randint(0, 500)])
+                script = [big] + maybe(["rejected", rng.choice(["middle", "last"])]) + maybe(part()) + [first] + maybe(["write", rng.randint(0, 5000)]) + maybe(part()) + [second] + maybe(["write", rng.randint(0, 500)])
                 continue
             if zero_run > 0 and fd in reactor.writers:
                 zero_run -= 1
